@@ -2,3 +2,5 @@ import PepperModel.Codes
 import PepperModel.Generated.Tables
 import PepperModel.Closure
 import PepperModel.Notation
+import PepperModel.Sem
+import PepperModel.Pil
